@@ -19,6 +19,7 @@ func init() {
 }
 
 func runC41(c *Ctx) {
+	sweepC41(c)
 	f := c.fn("ssh", "(*CertChecker).CheckCert")
 	if f == nil {
 		return
